@@ -23,7 +23,7 @@ fn exec(line: &str, model: &mut Model) -> Option<Exec> {
     match op {
         "enc" | "dec" | "spec.enc" | "spec.dec" | "crcok" | "crc16" | "crc32" | "json.enc" => p_codec::exec(line, model),
         "spec.adm" => p_misc::exec(line, model),
-        _ if op.starts_with("eid.") || op.starts_with("time.") || op.starts_with("adm.") || op == "ts.string" => p_misc::exec(line, model),
+        _ if op.starts_with("eid.") || op.starts_with("time.") || op.starts_with("adm.") || op == "ts.string" || op == "ts.sinks" => p_misc::exec(line, model),
         "validate" | "id" | "idpair" | "info" | "upd" | "seq" | "build" => p_misc::exec(line, model),
         "rx" | "fault" | "cor" => p_rx::exec(line, model),
         "ts.run" => p_ts::exec(line, model),
